@@ -52,6 +52,8 @@ def documents(tier='quick'):
     docs.append(('bare-costs', '2000-01-11 * "c"\n    Assets:Foo  1 USD {{12.34}}\n    Assets:Bar  1 USD {12.34}\n    Assets:Baz  1 USD {GBP}\n    Assets:Qux  1 USD {2000-01-01, "l", *}\n'))
     docs.append(('mixed-tags-links', '2000-01-11 * "p" "n" #aaa ^bbb #ccc ^ddd #eee\n    Assets:Foo  1 USD\n2000-01-12 note Assets:Foo "n" ^l0 #t0 ^l1 #t1\n'))
     docs.append(('meta-comments-postings', '2000-01-11 * "m"\n    foo: 1\n    ; c1\n    Assets:Foo  1 USD\n    ; c2\n    bar: 2\n    Assets:Bar\n'))
+    docs.append(('trailing-ws', '2000-01-02 close Assets:Foo  \n2000-01-03 * "groceries" \n    Assets:Cash  1 USD \n    Assets:B\t\n2000-01-04 open Assets:X USD \n    kk: 1 \n'))
+    docs.append(('claim-shift', '2000-01-01 *\n    foo: 1\n    ; c1\n    Assets:Foo  100.00 USD\n    Assets:Bar\n'))
     docs.append(('org-headings', '* Heading\n** Sub\n2000-01-01 open Assets:Foo\n'))
     return docs
 
